@@ -3,6 +3,7 @@ import WS.Driver.OpsCore
 import WS.Driver.OpsH1
 import WS.Driver.OpsH2
 import WS.Driver.OpsApp
+import WS.Driver.OpsGlue
 namespace WS.Driver
 
 def dispatch (line : String) : String :=
@@ -16,6 +17,8 @@ def dispatch (line : String) : String :=
       | some r => r
       | none => match App.ops args with
         | some r => r
-        | none => "bad-op"
+        | none => match Glue.ops args with
+          | some r => r
+          | none => "bad-op"
 
 end WS.Driver
